@@ -222,6 +222,10 @@ def _member(sa, sb, sc, sv, sk, d1, m0, tg, lv):
   elif sk == 6:
     shared = [n0, lv]
     root.k = (shared, {'s': shared}, fdl.Partial(fam.g3, x=shared))
+  elif sk == 10:
+    # one list reachable through several containers that hold no Buildable
+    shared_l = [lv, 1]
+    root.k = [{'d': shared_l}, {'d': shared_l}, [shared_l], (shared_l, 2)]
   elif sk == 9:
     # required positional-only parameter followed by defaulted positional-only ones: set, partly set, left open
     root.k = [fdl.Config(fpo, lv), fdl.Config(fpo, lv, 11), {'p': fdl.Partial(fpo)}, fdl.Partial(fpo, lv, 10, 20, d=lv)]
@@ -302,10 +306,10 @@ def _all_defaults_set(cfg):
 
 def c20_transform(t: int, sa: int, sb: int, sc: int, sv: int, sk: int, d1: int, m0: int, tg: int, lv: int) -> bool:
   """
-  require: 0 <= t <= 9 and 0 <= sa <= 2 and 0 <= sb <= 2 and 0 <= sc <= 2 and 0 <= sv <= 1 and 0 <= sk <= 9
+  require: 0 <= t <= 9 and 0 <= sa <= 2 and 0 <= sb <= 2 and 0 <= sc <= 2 and 0 <= sv <= 1 and 0 <= sk <= 10
   require: 0 <= d1 <= 2 and 0 <= m0 <= 5 and 0 <= tg <= 2
   """
-  sa, sb, sc, sv, sk = _conc(sa, 0, 2), _conc(sb, 0, 2), _conc(sc, 0, 2), _conc(sv, 0, 1), _conc(sk, 0, 9)
+  sa, sb, sc, sv, sk = _conc(sa, 0, 2), _conc(sb, 0, 2), _conc(sc, 0, 2), _conc(sv, 0, 1), _conc(sk, 0, 10)
   d1, m0, tg = _conc(d1, 0, 2), _conc(m0, 0, 5), _conc(tg, 0, 2)
   x = _member(sa, sb, sc, sv, sk, d1, m0, tg, lv)
   before = canon(x)
@@ -431,7 +435,7 @@ def c20_dataclasses(shape: int, share: bool, a: int, v: int) -> bool:
 def obligations(tier, seed):
   cubes = []
   for t in range(10):
-    for sk in range(10):
+    for sk in range(11):
       if tier == 'quick':
         j = t + sk
         fix = dict(t=t, sk=sk, sv=j % 2, d1=j % 3, tg=(j // 2) % 3, sb=(j // 3) % 3)
@@ -444,7 +448,7 @@ def obligations(tier, seed):
   smoke = dict(t=0, sa=1, sb=0, sc=2, sv=1, sk=1, d1=2, m0=2, tg=1, lv=3)
   return [
       Obligation('c20_transform', c20_transform, cubes, timeout=t_, path_timeout=40, smoke=smoke,
-                 extra_smokes=[dict(smoke, t=t, sk=(t % 10), tg=t % 3, m0=(t % 2) * 2) for t in range(10)] + [dict(smoke, t=4, sk=8), dict(smoke, t=0, sk=9)]),
+                 extra_smokes=[dict(smoke, t=t, sk=(t % 10), tg=t % 3, m0=(t % 2) * 2) for t in range(10)] + [dict(smoke, t=4, sk=8), dict(smoke, t=0, sk=9), dict(smoke, t=5, sk=10)]),
       Obligation('c20_inline', c20_inline, [Cube(f'p{p}_h{h}_n{n}', [], dict(prog=p, how=h, nested=n)) for p in range(4)
                                             for h in range(4) for n in range(3)], timeout=120, path_timeout=40,
                  smoke=dict(prog=1, how=1, nested=1, p=3, q=4), extra_smokes=[dict(prog=0, how=3, nested=2, p=3, q=4)]),
